@@ -694,6 +694,20 @@ func c13GenReq(t *rapid.T) c13Case {
 			}
 			c.Mutation = "row-window"
 		}
+		if rapid.IntRange(0, 11).Draw(t, "selector-groups") == 0 {
+			// a selector of many groups of alternatives in a row: each multiplies the number of paths it stands for
+			grp := rapid.SampledFrom([]string{"(a;b)", "(a;b;c)", "(a/b;c)", "(a;(b;c))", "/(a;b)"}).Draw(t, "group")
+			sel := "x" + strings.Repeat(grp, rapid.SampledFrom([]int{2, 5, 10, 16, 24, 40, 100}).Draw(t, "ngroups"))
+			switch rapid.IntRange(0, 2).Draw(t, "selector-param") {
+			case 0:
+				c.Text = "fields=" + url.QueryEscape(sel)
+			case 1:
+				c.Text = "fc.xfields=" + url.QueryEscape(sel)
+			default:
+				c.Text = "fc.range=" + url.QueryEscape(sel+"!0-1")
+			}
+			c.Mutation = "selector-groups"
+		}
 		c.Entry = target
 		if n, _, _ := dm.Resolve(root, data, target); n.Kind == "list" && len(target) > 0 && target[len(target)-1].Key == nil {
 			c.Entry = nil
